@@ -310,7 +310,7 @@ func genSteps(t *rapid.T, key string, tree *Iface, n int) []BStep {
 		if st.In == nil {
 			st.In = []json.RawMessage{}
 		}
-		switch r := rapid.IntRange(0, 11).Draw(t, "shape"); {
+		switch r := rapid.IntRange(0, 13).Draw(t, "shape"); {
 		case r <= 2: // plain call, typed reply
 			st.API = "call"
 			st.Reply = BReply{Kind: "reply", Out: g.fields(m.Out)}
@@ -380,6 +380,34 @@ func genSteps(t *rapid.T, key string, tree *Iface, n int) []BStep {
 			st.Reply = BReply{Kind: "error", Error: e.Name}
 			st.Canned = []byte(fmt.Sprintf(rapid.SampledFrom([]string{`{"error":%s}`, `{"error":%s,"parameters":null}`, `{"parameters":null,"error":%s}`, `{"error":%s,"parameters":{}}`,
 				`{"error":%s,"parameters":{"unknown_member_zz":1}}`, `{"error":%s,"parameters":[]}`, `{"error":%s,"parameters":"text"}`, `{"error":%s,"continues":true}`}).Draw(t, "fshape"), q))
+		case r == 12 && len(es) > 0: // a foreign peer passes on an error of ANOTHER interface whose member name is one this description declares
+			st.API = "call"
+			e := rapid.SampledFrom(es).Draw(t, "xerr")
+			other := rapid.SampledFrom([]string{"org.example.other", tree.Name + "x", "x" + tree.Name, tree.Name + ".sub", "sub." + tree.Name, strings.ToUpper(tree.Name[:1]) + tree.Name[1:], "a"}).Draw(t, "xiface")
+			if other == tree.Name {
+				other = "org.example.other"
+			}
+			full := other + "." + e.Name
+			q, _ := json.Marshal(full)
+			params := "{}"
+			if e.T != nil && rapid.IntRange(0, 3).Draw(t, "xparams") > 0 {
+				params = objectJSON(fieldNames(e.T), g.fields(e.T))
+			}
+			st.Reply = BReply{Kind: "error", Error: e.Name}
+			st.Canned = []byte(fmt.Sprintf(`{"error":%s,"parameters":%s}`, q, params))
+			st.CannedWant = "generic:" + full
+		case r == 13: // a foreign peer answers with a well-formed success frame (for a method without output: an explicit empty object, null, or no member at all)
+			st.API = "call"
+			outs := g.fields(m.Out)
+			st.Reply = BReply{Kind: "reply", Out: outs}
+			st.CannedWant = "reply"
+			obj := objectJSON(fieldNames(m.Out), outs)
+			shapes := []string{`{"parameters":%s}`, `{"parameters":%s,"continues":false}`, `{"continues":false,"parameters":%s}`}
+			if len(m.Out.Fields) == 0 {
+				st.Canned = []byte(rapid.SampledFrom([]string{`{"parameters":{}}`, `{}`, `{"parameters":null}`, `{"parameters":{},"continues":false}`, `{"parameters":{"unknown_member_zz":1}}`}).Draw(t, "voidshape"))
+			} else {
+				st.Canned = []byte(fmt.Sprintf(rapid.SampledFrom(shapes).Draw(t, "okshape"), obj))
+			}
 		case r == 3 && rapid.IntRange(0, 3).Draw(t, "closed") == 0: // the transport is gone before the stub runs
 			st.API = rapid.SampledFrom([]string{"call", "call", "send", "upgrade"}).Draw(t, "closedapi")
 			st.Reply = BReply{Kind: "reply", Out: g.fields(m.Out)}
@@ -452,6 +480,38 @@ func judgeStep(st BStep, tree *Iface, o BStepObs) (string, int) {
 			return pre + fmt.Sprintf("the driver made %d receives, want 1", len(o.Recvs)), cmp
 		}
 		cmp++
+		if st.CannedWant == "reply" {
+			r := o.Recvs[0]
+			if r.ErrStr != "" {
+				return pre + fmt.Sprintf("the peer answered with the well-formed reply %s, the generated client returned the error %q (%s)", st.Canned, r.ErrStr, r.ErrType), cmp
+			}
+			if m != nil {
+				if len(r.Outs) != len(m.Out.Fields) {
+					return pre + fmt.Sprintf("the peer answered %s, the generated client returned %d values, the method has %d output fields", st.Canned, len(r.Outs), len(m.Out.Fields)), cmp
+				}
+				for k, f := range m.Out.Fields {
+					if d := valueDiff(f.T, aliases, st.Reply.Out[k], r.Outs[k], false, "result "+f.Name); d != "" {
+						return pre + fmt.Sprintf("the peer answered %s: %s", st.Canned, d), cmp
+					}
+				}
+			}
+			return "", cmp
+		}
+		if strings.HasPrefix(st.CannedWant, "generic:") {
+			full := strings.TrimPrefix(st.CannedWant, "generic:")
+			r := o.Recvs[0]
+			if r.ErrStr == "" {
+				return pre + fmt.Sprintf("the peer answered with the error frame %s, the generated client reported success", st.Canned), cmp
+			}
+			var ge struct {
+				Name string `json:"error"`
+			}
+			json.Unmarshal(r.ErrJSON, &ge)
+			if r.ErrType != "*varlink.Error" || !(r.ErrStr == full || strings.HasPrefix(r.ErrStr, full+"(") || ge.Name == full) {
+				return pre + fmt.Sprintf("the peer answered %s - an error this description does not declare (it belongs to another interface) - and the generated client returned %q (%s), want the generic error named %s", st.Canned, r.ErrStr, r.ErrType, full), cmp
+			}
+			return "", cmp
+		}
 		if r := o.Recvs[0]; r.ErrStr != want && !strings.HasPrefix(r.ErrStr, want+"(") {
 			return pre + fmt.Sprintf("the peer answered %s, the generated client returned error %q (%s), want the error %s", st.Canned, r.ErrStr, r.ErrType, want), cmp
 		}
@@ -898,4 +958,21 @@ func firstErr(r []BRecvObs) string {
 		return ""
 	}
 	return r[0].ErrStr
+}
+
+// objectJSON renders a JSON object from parallel name / value lists.
+func objectJSON(names []string, vals []json.RawMessage) string {
+	var sb strings.Builder
+	sb.WriteByte('{')
+	for i, n := range names {
+		if i > 0 {
+			sb.WriteByte(',')
+		}
+		q, _ := json.Marshal(n)
+		sb.Write(q)
+		sb.WriteByte(':')
+		sb.Write(vals[i])
+	}
+	sb.WriteByte('}')
+	return sb.String()
 }
